@@ -49,6 +49,14 @@ type fMaps struct {
 	OS  *ordered.MapSS      `yaml:"os"`
 }
 
+// ordered maps whose values are composite: each entry is decoded into its own destination
+type fOMapComposite struct {
+	OL *ordered.Map[string, []string]          `yaml:"ol"`
+	OT *ordered.Map[string, fAliasNoInline]    `yaml:"ot"`
+	OP *ordered.Map[string, *fAliasNoInline]   `yaml:"op"`
+	OM *ordered.Map[string, map[string]string] `yaml:"om"`
+}
+
 type fNested struct {
 	In fScalars             `yaml:"in"`
 	P  *fScalars            `yaml:"p"`
@@ -129,6 +137,7 @@ var c16Family = []famEntry{
 		return &fInlineStruct{Cmds: []string{"c0"}, Rem: &fAliases{Key: "K", Rest: map[string]any{"r": 1}}}
 	}, false},
 	{"aliasnoinline", func() any { return &fAliasNoInline{} }, func() any { return &fAliasNoInline{X: "x", W: 1} }, false},
+	{"omapcomposite", func() any { return &fOMapComposite{} }, func() any { return &fOMapComposite{} }, false},
 	// two distinct struct types that print the same (function-local types called `step`) with different tags:
 	// whatever is remembered per type must be keyed by the type, not by its name
 	{"localstep1", mkLocalStep1, mkLocalStep1, true},
@@ -160,12 +169,40 @@ var (
 	tMapSS = reflect.TypeOf((*ordered.MapSS)(nil))
 )
 
+// isOMapPtr: *ordered.Map[string, V] for some V (the generic ordered map); returns V.
+func isOMapPtr(t reflect.Type) (reflect.Type, bool) {
+	if t.Kind() != reflect.Pointer || t.Elem().Kind() != reflect.Struct || t.Elem().PkgPath() != "github.com/buildkite/go-pipeline/ordered" ||
+		!strings.HasPrefix(t.Elem().Name(), "Map[string,") {
+		return nil, false
+	}
+	rm, ok := t.MethodByName("Range")
+	if !ok || rm.Type.NumIn() != 2 {
+		return nil, false
+	}
+	return rm.Type.In(1).In(1), true // func(K, V) error
+}
+
+// omapEntries: the live entries of a non-nil *ordered.Map[string, V], in order, through its own Range.
+func omapEntries(v reflect.Value) (keys []string, vals []reflect.Value) {
+	rm := v.MethodByName("Range")
+	fn := reflect.MakeFunc(rm.Type().In(0), func(args []reflect.Value) []reflect.Value {
+		keys = append(keys, args[0].String())
+		vals = append(vals, args[1])
+		return []reflect.Value{reflect.Zero(rm.Type().In(0).Out(0))}
+	})
+	rm.Call([]reflect.Value{fn})
+	return keys, vals
+}
+
 func tyDesc(t reflect.Type) any {
 	switch {
 	case t == tMapSA:
 		return []any{"omap", "any"}
 	case t == tMapSS:
 		return []any{"omap", "string"}
+	}
+	if et, ok := isOMapPtr(t); ok {
+		return []any{"omap", tyDesc(et)}
 	}
 	switch t.Kind() {
 	case reflect.String:
@@ -234,6 +271,17 @@ func dumpVal(v reflect.Value) any {
 		}
 		o := vl.OMap{}
 		m.Range(func(k string, x string) error { o = append(o, vl.KV{K: k, V: x}); return nil })
+		return o
+	}
+	if _, ok := isOMapPtr(t); ok {
+		if v.IsNil() {
+			return nil
+		}
+		o := vl.OMap{}
+		ks, vs := omapEntries(v)
+		for i := range ks {
+			o = append(o, vl.KV{K: ks[i], V: dumpVal(vs[i])})
+		}
 		return o
 	}
 	switch t.Kind() {
@@ -350,6 +398,14 @@ func c16ValueFor(r *core.Rand, t reflect.Type, depth int, ill bool) any {
 		m := ordered.NewMap[string, any](2)
 		for i := r.Intn(4); i > 0; i-- {
 			m.Set(core.Pick(r, []string{"x", "y", "pre", "b"}), core.Pick(r, []any{"s", 3, true, 1.5}))
+		}
+		return m
+	}
+	if et, ok := isOMapPtr(t); ok {
+		// several entries with composite values: what one entry leaves behind must not reach the next
+		m := ordered.NewMap[string, any](3)
+		for i := 1 + r.Intn(4); i > 0; i-- {
+			m.Set(core.Pick(r, []string{"x", "y", "pre", "b", "c"}), c16ValueFor(r, et, depth+1, ill))
 		}
 		return m
 	}
@@ -634,6 +690,37 @@ func runC16(c *ctx) error {
 							c.res.Fail(core.OracleFailure{What: "a map field of a pre-populated destination ends up with other entries than under yaml.v3's decoder",
 								Input: map[string]any{"type": fam.name, "doc": string(jb), "field": a.Type().Field(fi).Name}, Got: fmt.Sprint(fa.Interface()), Want: fmt.Sprint(fb.Interface())})
 						}
+					}
+				}
+			}
+		}
+		// oracle: entries of an ordered-map field are independent — each equals what its own value decodes to alone
+		if fam.name == "omapcomposite" && err == nil && !pre && !ill {
+			a := reflect.ValueOf(dst).Elem()
+			for fi := 0; fi < a.NumField(); fi++ {
+				fa := a.Field(fi)
+				et, ok := isOMapPtr(fa.Type())
+				if !ok || fa.IsNil() {
+					continue
+				}
+				tag := strings.Split(a.Type().Field(fi).Tag.Get("yaml"), ",")[0]
+				dv, _ := doc.Get(tag)
+				inner, ok := dv.(*ordered.MapSA)
+				if !ok {
+					continue
+				}
+				ks, vs := omapEntries(fa)
+				for i, k := range ks {
+					src, _ := inner.Get(k)
+					fresh := reflect.New(et)
+					if ferr := ordered.Unmarshal(src, fresh.Interface()); ferr != nil {
+						continue
+					}
+					c.res.OracleChecks++
+					if got, want := vl.Enc(dumpVal(vs[i])), vl.Enc(dumpVal(fresh.Elem())); got != want {
+						jb, _ := json.Marshal(doc)
+						c.res.Fail(core.OracleFailure{What: "an entry of an ordered-map field differs from its own value decoded alone (something leaked from another entry)",
+							Input: map[string]any{"type": fam.name, "doc": string(jb), "field": a.Type().Field(fi).Name, "entry": k}, Got: got, Want: want})
 					}
 				}
 			}
